@@ -3,6 +3,7 @@
 package app
 
 import (
+	"testing/synctest"
 	"fmt"
 	"math/rand"
 	"os"
@@ -248,6 +249,14 @@ func c01one(t *testing.T, out *verifh.Out, r *rand.Rand, dir string) {
 		sw.From, sw.Cause, sw.MasterTransition = hosts[1+r.Intn(n-1)], CauseAuto, FailoverTransition
 	}
 	tree.Put("switch", sw)
+	// the speed-up phase before a planned switchover does something only when the replica it picks is far behind
+	if sw.MasterTransition == SwitchoverTransition && semi && r.Intn(2) == 0 {
+		for _, h := range hosts[1:] {
+			if sw.To == "" || sw.To == h {
+				wd.Nodes[h].LagWhenRunning = 500
+			}
+		}
+	}
 	// node losses present from the start
 	if kind == 3 || r.Intn(6) == 0 {
 		switch r.Intn(3) {
@@ -279,7 +288,23 @@ func c01one(t *testing.T, out *verifh.Out, r *rand.Rand, dir string) {
 	}
 	// a single fault, or a node loss at a call boundary, or a lost lock
 	fault := map[string]any{}
-	switch r.Intn(5) {
+	switch r.Intn(6) {
+	case 5:
+		// a slow server: every statement takes most of (but less than) the statement time-out to arrive
+		slow := hosts[r.Intn(n)]
+		if sw.To != "" && r.Intn(2) == 0 {
+			slow = sw.To
+		}
+		if r.Intn(2) == 0 {
+			wd.Nodes[slow].Latency = cfg.DBTimeout * 6 / 10
+			fault = map[string]any{"slow": slow}
+		} else {
+			// a latency blip everywhere (servers and coordination service), starting when the speed-up phase's first
+			// synchronisation fires (3 s) or a little later, lasting a little longer than one statement time-out
+			from := time.Now().Add([]time.Duration{3 * time.Second, 3 * time.Second, 1 * time.Second, 6 * time.Second}[r.Intn(4)])
+			wd.BlipFrom, wd.BlipTo, wd.BlipLat = from, from.Add(cfg.DBTimeout*13/10), cfg.DBTimeout*6/10
+			fault = map[string]any{"blip_from_ms": from.Sub(time.Now()).Milliseconds()}
+		}
 	case 0:
 		ops := []string{"set_ro_super", "stop_io", "replica_status", "gtid_executed", "set_online", "stop_replica", "change_source", "start_replica",
 			"reset_replica_all", "set_writable", "is_readonly", "events", "ss_status"}
@@ -353,6 +378,22 @@ func c01one(t *testing.T, out *verifh.Out, r *rand.Rand, dir string) {
 	}()
 	wd.OnStmt, wd.OnDcs = nil, nil
 	evs := wd.TakeLog()
+	// whatever the procedure left running (it must have joined its helpers) gets time to show itself
+	time.Sleep(20 * time.Second)
+	synctest.Wait()
+	var late []string
+	for _, e := range wd.TakeLog() {
+		if (e.Kind == "sql" && fakes.IsMutating(e.Op)) || (e.Kind == "dcs" && (e.Op == "set" || e.Op == "create" || e.Op == "delete")) {
+			late = append(late, e.Host+":"+e.Op+"("+e.Arg+")="+e.Res)
+		}
+	}
+	var regAfter []string
+	for p := range tree.Snapshot("optimization_nodes") {
+		if strings.HasPrefix(p, "optimization_nodes/") {
+			regAfter = append(regAfter, p[19:])
+		}
+	}
+	sort.Strings(regAfter)
 	steps := c01observe(evs, hosts)
 	_, emErr := os.Stat(cfg.Emergefile)
 	emerge := emErr == nil
@@ -393,7 +434,8 @@ func c01one(t *testing.T, out *verifh.Out, r *rand.Rand, dir string) {
 		"cs":     vCSList(cs), "active": active, "old_master": master, "hosts": hosts, "prios": prios,
 		"sw":     map[string]any{"from": sw.From, "to": sw.To, "cause_auto": sw.Cause == CauseAuto, "failover_type": sw.MasterTransition == FailoverTransition, "turbo": sw.MasterTransition == SwitchoverTransition && semi},
 		"fault":  fault, "evs": evl, "steps": steps, "snaps": snaps, "emerge": emerge, "err": errS, "panic": panicked,
-		"final":  wd.Digest(), "master_after": masterAfter, "switch_present": tree.Has("switch"), "recovery": tree.Snapshot("recovery")})
+		"final":  wd.Digest(), "master_after": masterAfter, "switch_present": tree.Has("switch"), "recovery": tree.Snapshot("recovery"),
+		"late": late, "opt_registry_after": regAfter})
 }
 
 func TestVerifC01(t *testing.T) {
